@@ -1,6 +1,7 @@
 package main
 
 import (
+	"go/types"
 	"sort"
 	"strings"
 
@@ -41,19 +42,15 @@ func lockOpOf(in ssa.Instruction) *lockOp {
 	return &lockOp{class: lockClass(r), inst: nf(r), kind: name}
 }
 
-// lockClass: type-rooted field path of a mutex expression.
+// lockClass: (owning struct type).field of a mutex expression — the innermost field hop.
+// A mutex held in a local variable is identified by the variable.
 func lockClass(v ssa.Value) string {
-	var path []string
 	for {
 		switch x := v.(type) {
 		case *ssa.FieldAddr:
-			path = append([]string{fieldName(x.X.Type(), x.Field)}, path...)
-			v = x.X
-			continue
+			return ownerType(x.X.Type()) + "." + fieldName(x.X.Type(), x.Field)
 		case *ssa.Field:
-			path = append([]string{fieldName(x.X.Type(), x.Field)}, path...)
-			v = x.X
-			continue
+			return ownerType(x.X.Type()) + "." + fieldName(x.X.Type(), x.Field)
 		case *ssa.UnOp:
 			v = x.X
 			continue
@@ -63,21 +60,20 @@ func lockClass(v ssa.Value) string {
 		case *ssa.MakeInterface:
 			v = x.X
 			continue
+		case *ssa.FreeVar:
+			return "local:" + x.Name()
+		case *ssa.Alloc:
+			return "local:" + x.Comment
 		}
-		break
+		return "value:" + v.Name()
 	}
-	root := typeStr(v.Type())
-	switch x := v.(type) {
-	case *ssa.FreeVar:
-		// captured local (e.g. a sync.Cond created in the parent): identify by name + type
-		root = "local:" + x.Name()
-	case *ssa.Alloc:
-		if x.Comment != "" {
-			root = "local:" + x.Comment
-		}
+}
+
+func ownerType(t types.Type) string {
+	if p, ok := t.Underlying().(*types.Pointer); ok {
+		t = p.Elem()
 	}
-	root = strings.ReplaceAll(root, repoMod+"/", "")
-	return root + "." + strings.Join(path, ".")
+	return strings.ReplaceAll(typeStr(t), repoMod+"/", "")
 }
 
 type lockset map[string]string // class -> mode ("W" or "R")
